@@ -78,6 +78,37 @@ pub fn check_case(tape: &[u16], rc: &mut RCase) -> Result<(), Failure> {
             u.party = sc.ins[0].party;
         }
     }
+    // a block whose threshold is what another block receives (today such a query is refused; should it ever be
+    // served, the blocks still must not share a UTxO)
+    if sc.ins.len() >= 2 && t.chance(1, 12) {
+        let k = 1 + t.pick(sc.ins.len() - 1);
+        sc.ins[k].min = vec![rgen::Term::OtherInput(0)];
+        rc.label("threshold_is_another_blocks_value");
+    }
+    // a UTxO that is worth exactly what a block asks for (to the unit, tokens included), wanted by later blocks too
+    if t.chance(1, 4) {
+        let fixed = |terms: &[rgen::Term]| -> Option<(i128, i128)> {
+            let (mut l, mut k) = (0i128, 0i128);
+            for term in terms {
+                match term {
+                    rgen::Term::AdaParam(i) => l += sc.params[*i].1,
+                    rgen::Term::AdaLit(n) => l += n,
+                    rgen::Term::TokParam(i) => k += sc.params[*i].1,
+                    rgen::Term::TokLit(n) => k += n,
+                    _ => return None,
+                }
+            }
+            Some((l, k))
+        };
+        if let Some((l, k)) = fixed(&sc.ins[0].min) {
+            if l > 0 {
+                let id = sc.store.iter().map(|u| u.id).max().map(|m| m + 1).unwrap_or(0);
+                let party = sc.ins[0].party;
+                sc.store.push(rgen::SUtxo { id, party, lovelace: l, token: k });
+                rc.label("utxo_worth_exactly_a_threshold");
+            }
+        }
+    }
     let src = sc.source();
     let rendered = || sc.to_json();
     let key = hash64(&format!("{}{:?}", src, sc.store));
